@@ -22,7 +22,9 @@ type rdLex struct {
 	text string // lexeme as the mapping sees it
 }
 
-var rdIdentPool = []string{"orders", "cust", "status", "name", "k9", "comment", "data", "region", "x"}
+var rdIdentPool = []string{"orders", "cust", "status", "name", "k9", "comment", "data", "region", "x",
+	// non-reserved keywords spelled with upper-case letters are identifiers all the same
+	"Name", "STATUS", "Data", "Comment", "User", "Orders"}
 var rdStrPool = []string{"alice", "bob", "secret pw", "4111-1111"}
 var rdNumPool = []string{"1234", "77", "3.5", "900001"}
 
